@@ -117,7 +117,23 @@ def coq_cone(vfile):
     return [v for v in order if v in cone]
 
 
+class coq_lock:
+    """serialise Coq builds of concurrent ./check runs (they share coq/*.vo)"""
+    def __enter__(self):
+        import fcntl
+        os.makedirs(BUILD, exist_ok=True)
+        self.f = open(os.path.join(BUILD, ".coq.lock"), "w")
+        fcntl.flock(self.f, fcntl.LOCK_EX)
+    def __exit__(self, *a):
+        self.f.close()
+
+
 def coq_prove(pid, targets, timeout):
+    with coq_lock():
+        return coq_prove_locked(pid, targets, timeout)
+
+
+def coq_prove_locked(pid, targets, timeout):
     """Build the property's cone, re-run the property file to read Print Assumptions,
     run the hygiene scan.  Returns a dict describing the proof part of the evidence."""
     res = {"ok": False, "errors": [], "obligations": 0, "discharged": 0, "theorems": [],
